@@ -66,6 +66,82 @@ func collectFieldLits(c *Ctx) []fieldLit {
 			return true
 		})
 	})
+	return expandHelperLits(c, out)
+}
+
+// expandHelperLits: a Field literal inside an unexported helper whose Type (and slots) are the helper's own
+// parameters - func integerField(key string, typ FieldType, ival int64) Field { return Field{Key: key, Type: typ,
+// Integer: ival} } - stands for one literal per call site, with the call's arguments substituted.
+func expandHelperLits(c *Ctx, lits []fieldLit) []fieldLit {
+	var out []fieldLit
+	for _, l := range lits {
+		if l.ftype != nil || l.fd.Recv != nil || ast.IsExported(l.fd.Name.Name) {
+			out = append(out, l)
+			continue
+		}
+		info := l.pk.TypesInfo
+		paramIdx := func(e ast.Expr) int {
+			id, ok := ast.Unparen(e).(*ast.Ident)
+			if !ok {
+				return -1
+			}
+			obj := info.Uses[id]
+			k := 0
+			for _, fl := range l.fd.Type.Params.List {
+				for _, n := range fl.Names {
+					if info.Defs[n] == obj && obj != nil {
+						return k
+					}
+					k++
+				}
+			}
+			return -1
+		}
+		var typeExpr ast.Expr
+		for _, el := range l.lit.Elts {
+			if kv, ok := el.(*ast.KeyValueExpr); ok {
+				if k, _ := kv.Key.(*ast.Ident); k != nil && k.Name == "Type" {
+					typeExpr = kv.Value
+				}
+			}
+		}
+		ti := -1
+		if typeExpr != nil {
+			ti = paramIdx(typeExpr)
+		}
+		hobj, _ := info.Defs[l.fd.Name].(*types.Func)
+		if ti < 0 || hobj == nil {
+			out = append(out, l)
+			continue
+		}
+		n := 0
+		c.EachFuncDecl(func(pk *packages.Package, fd *ast.FuncDecl) {
+			if pk != l.pk || fd == l.fd {
+				return
+			}
+			ast.Inspect(fd.Body, func(nd ast.Node) bool {
+				call, ok := nd.(*ast.CallExpr)
+				if !ok || CalleeOf(pk.TypesInfo, call) != hobj || ti >= len(call.Args) {
+					return true
+				}
+				v := fieldLit{pk: pk, fd: fd, lit: l.lit, slots: map[string]ast.Expr{}}
+				v.ftype = ConstOf(pk.TypesInfo, call.Args[ti])
+				for name, e := range l.slots {
+					if pi := paramIdx(e); pi >= 0 && pi < len(call.Args) {
+						v.slots[name] = call.Args[pi]
+					} else {
+						v.slots[name] = e
+					}
+				}
+				out = append(out, v)
+				n++
+				return true
+			})
+		})
+		if n == 0 {
+			out = append(out, l)
+		}
+	}
 	return out
 }
 
@@ -417,6 +493,59 @@ func checkC03(c *Ctx) {
 	c3Time(c)
 	c3NilError(c)
 	c3Equals(c, byType)
+	c3NilPlaceholder(c)
+}
+
+// c3NilPlaceholder: a Stringer / error payload is delivered as whatever its own String()/Error() returns; the
+// "<nil>" placeholder is produced only while recovering from a panic of that call (a nil pointer whose method copes
+// with a nil receiver keeps its own text), consistently across the single-value and the slice encoders.
+func c3NilPlaceholder(c *Ctx) {
+	c.Rule("R3.8", "the \"<nil>\" placeholder for Stringer/error payloads is produced only inside the recover handler (the value's own method is always tried first)", 1)
+	var inHandler func(f *ssa.Function, depth int) bool
+	inHandler = func(f *ssa.Function, depth int) bool {
+		if f == nil || depth > 3 {
+			return false
+		}
+		if f.Parent() != nil {
+			for _, cl := range Calls(f) {
+				if CallBuiltin(cl) == "recover" {
+					return true
+				}
+			}
+		}
+		if !Eligible(f) {
+			return false
+		}
+		sites := sitesOf(f)
+		if len(sites) == 0 {
+			return false
+		}
+		for _, s := range sites {
+			// the call itself must be conditional on a recovered panic: inside a handler closure
+			if !inHandler(s.Parent(), depth+1) {
+				return false
+			}
+		}
+		return true
+	}
+	c.EachRootFunc(func(fn *ssa.Function) {
+		if fn.Pkg == nil || (fn.Pkg.Pkg.Path() != ZapPath && fn.Pkg.Pkg.Path() != CorePath) {
+			return
+		}
+		k := 0
+		AllInstrs(fn, func(in ssa.Instruction) {
+			var ops [12]*ssa.Value
+			for _, op := range in.Operands(ops[:0]) {
+				if op == nil || *op == nil {
+					continue
+				}
+				if sv, ok := ConstString(*op); ok && sv == "<nil>" {
+					k++
+					c.Check(inHandler(fn, 0), "R3.8", FuncKey(fn), "placeholder#"+itoa(k), in.Pos(), "the \"<nil>\" placeholder is written only while recovering from a panic of the payload's own String()/Error()")
+				}
+			}
+		})
+	})
 }
 
 func isParamIdent(info *types.Info, fd *ast.FuncDecl, e ast.Expr) bool {
@@ -1031,75 +1160,12 @@ func c3NilError(c *Ctx) {
 }
 
 func c3Equals(c *Ctx, byType map[string][]fieldLit) {
-	fd, pk := c.DeclOf(CorePath, "Field", "Equals")
 	ftNamed := c.Named(CorePath, "FieldType")
-	if !c.Anchor("R3.7", "zapcore.Field.Equals", fd != nil) {
+	fn := c.Method(CorePath, "Field", "Equals")
+	if !c.Anchor("R3.7", "zapcore.Field.Equals", fn != nil && ftNamed != nil) {
 		return
 	}
-	info := pk.TypesInfo
-	all := map[string]bool{}
-	for _, k := range c.ConstsOfType(CorePath, ftNamed) {
-		all[k.Name()] = true
-	}
-	sw := findSwitchOn(fd, ".Type")
-	if sw == nil {
-		c.Und("R3.7", "zapcore.Field.Equals", "switch", fd.Pos(), "no switch on f.Type")
-		return
-	}
-	arms := switchArms(info, sw)
-	listed := map[string]bool{}
-	for _, a := range arms {
-		for _, k := range a.consts {
-			listed[k.Name()] = true
-		}
-	}
-	reach := func(pos token.Pos) map[string]bool {
-		for _, a := range arms {
-			if pos >= a.clause.Pos() && pos < a.clause.End() {
-				s := map[string]bool{}
-				if a.isDef {
-					for n := range all {
-						if !listed[n] {
-							s[n] = true
-						}
-					}
-				} else {
-					for _, k := range a.consts {
-						s[k.Name()] = true
-					}
-				}
-				return s
-			}
-		}
-		if pos > sw.End() {
-			// after the switch: only field types whose arm does not return (or that have no arm) get here
-			allTerminate := true
-			hasDefault := false
-			for _, a := range arms {
-				if a.isDef {
-					hasDefault = true
-				}
-				n := len(a.clause.Body)
-				if n == 0 {
-					allTerminate = false
-					continue
-				}
-				if _, isRet := a.clause.Body[n-1].(*ast.ReturnStmt); !isRet {
-					allTerminate = false
-				}
-			}
-			if allTerminate && !hasDefault {
-				s := map[string]bool{}
-				for n := range all {
-					if !listed[n] {
-						s[n] = true
-					}
-				}
-				return s
-			}
-		}
-		return all // outside the switch: every type
-	}
+	rn := fn.Params[0].Name()
 	isDanger := func(t types.Type) bool {
 		if t == nil {
 			return false
@@ -1116,68 +1182,72 @@ func c3Equals(c *Ctx, byType map[string][]fieldLit) {
 		}
 		return false
 	}
-	n := 0
-	ast.Inspect(fd.Body, func(nd ast.Node) bool {
-		be, ok := nd.(*ast.BinaryExpr)
-		if !ok || (be.Op != token.EQL && be.Op != token.NEQ) {
-			return true
-		}
-		if !isDanger(info.TypeOf(be.X)) {
-			return true
-		}
-		if id, ok := ast.Unparen(be.Y).(*ast.Ident); ok && id.Name == "nil" {
-			return true
-		}
-		n++
-		var bad []string
-		for tn := range reach(be.Pos()) {
-			for _, l := range byType[tn] {
-				e, has := l.slots["Interface"]
-				if !has {
-					continue
+	// Path exploration with the receiver's FieldType fixed to each constant in turn (helpers inline): which
+	// comparison of the payload can be reached for that type?
+	nEq := 0
+	var badEq, badBytes []string
+	nPaths := 0
+	for _, k := range c.ConstsOfType(CorePath, ftNamed) {
+		kv, _ := ConstObjInt(k)
+		tn := k.Name()
+		seqs, trunc := ConcPaths(fn, ConcCfg{
+			Conc: func(d string) (int64, bool) {
+				if d == rn+".Type" {
+					return kv, true
 				}
-				st := l.pk.TypesInfo.TypeOf(e)
-				_, isIface := st.Underlying().(*types.Interface)
-				if isIface || !types.Comparable(st) {
-					bad = append(bad, tn+" (payload "+TypeName(st)+" from "+l.fd.Name.Name+")")
-				}
-			}
-		}
-		sort.Strings(bad)
-		c.Check(len(bad) == 0, "R3.7", "zapcore.Field.Equals", "eq#"+itoa(n)+"/"+types.ExprString(be), be.Pos(), "== on interface-carrying operands is reachable only for field types whose Interface payload has a comparable concrete static type; offending: %v (an uncomparable dynamic value makes == panic)", bad)
-		return true
-	})
-	if n == 0 {
-		c.OK("R3.7", "zapcore.Field.Equals", "no-interface-eq", fd.Pos(), "no == over interface-carrying operands")
-	}
-	// []byte payloads compared with bytes.Equal
-	for _, a := range arms {
-		usesBytesEqual := false
-		ast.Inspect(a.clause, func(nd ast.Node) bool {
-			if ce, ok := nd.(*ast.CallExpr); ok {
-				if f := CalleeOf(info, ce); f != nil && f.FullName() == "bytes.Equal" {
-					usesBytesEqual = true
-				}
-			}
-			return true
-		})
-		if usesBytesEqual {
-			for _, k := range a.consts {
-				okB := true
-				for _, l := range byType[k.Name()] {
-					if e, has := l.slots["Interface"]; has && TypeName(l.pk.TypesInfo.TypeOf(e)) != "[]byte" {
-						okB = false
+				return 0, false
+			},
+			Event: func(in ssa.Instruction, st *ConcState) string {
+				switch x := in.(type) {
+				case *ssa.BinOp:
+					if (x.Op == token.EQL || x.Op == token.NEQ) && isDanger(x.X.Type()) && !IsNilConst(x.Y) && !IsNilConst(x.X) {
+						return "iface-eq"
+					}
+				case *ssa.Call:
+					if f := CalleeFunc(x); f != nil {
+						switch f.FullName() {
+						case "bytes.Equal":
+							return "bytes.Equal"
+						case "reflect.DeepEqual":
+							return "DeepEqual"
+						}
 					}
 				}
-				c.Check(okB, "R3.7", "zapcore.Field.Equals", "bytes/"+k.Name(), a.clause.Pos(), "%s payloads are []byte, compared with bytes.Equal", k.Name())
+				return ""
+			},
+		})
+		if trunc || len(seqs) == 0 {
+			c.Und("R3.7", fn.String(), "paths/"+tn, fn.Pos(), "path exploration incomplete (%d, truncated=%v)", len(seqs), trunc)
+			return
+		}
+		for _, sq := range seqs {
+			nPaths++
+			if strings.Contains(sq, "iface-eq") {
+				nEq++
+				for _, l := range byType[tn] {
+					e, has := l.slots["Interface"]
+					if !has {
+						continue
+					}
+					st := l.pk.TypesInfo.TypeOf(e)
+					_, isIface := st.Underlying().(*types.Interface)
+					if isIface || !types.Comparable(st) {
+						badEq = append(badEq, tn+" (payload "+TypeName(st)+" from "+l.fd.Name.Name+")")
+					}
+				}
+			}
+			if strings.Contains(sq, "bytes.Equal") {
+				for _, l := range byType[tn] {
+					if e, has := l.slots["Interface"]; has && TypeName(l.pk.TypesInfo.TypeOf(e)) != "[]byte" {
+						badBytes = append(badBytes, tn)
+					}
+				}
 			}
 		}
 	}
-	for _, tn := range []string{"BinaryType", "ByteStringType"} {
-		if !listed[tn] {
-			c.Bad("R3.7", "zapcore.Field.Equals", "bytes/"+tn, sw.Pos(), "%s carries a []byte and must not fall into the == arm", tn)
-		}
-	}
+	badEq = uniqSorted(badEq)
+	c.Check(len(badEq) == 0, "R3.7", fn.String(), "interface-eq-only-for-comparable-payloads", fn.Pos(), "over %d paths (FieldType fixed to each of its constants, helpers inline; %d reach a == on interface-carrying operands): such a == is reachable only for field types whose Interface payload has a comparable concrete static type; offending: %v (an uncomparable dynamic value makes == panic)", nPaths, nEq, badEq)
+	c.Check(len(badBytes) == 0, "R3.7", fn.String(), "bytes-equal-only-for-byte-payloads", fn.Pos(), "bytes.Equal is reached only for field types whose payload is []byte: %v", uniqSorted(badBytes))
 }
 
 // c3Provenance: in the constructor's SSA, every value stored into the
